@@ -722,14 +722,6 @@ fn rand_float_bits(g: &mut Gen, f32_: bool) -> u64 {
 
 pub fn gen(g: &mut Gen) {
     let thorough = g.thorough;
-    // ---- from_usize: exhaustive for the 8/16-bit types (all wrappers) --------------------------
-    for ty in ["u8", "i8", "u16", "i16"] {
-        for wrap in wraps_of(ty) {
-            g.op(format!("@ from_usize_range {} {} 0 66000", ty, wrap));
-            g.count("from_usize.exhaustive-range-lines");
-            g.count_n("from_usize.counts-covered-by-ranges", 66001);
-        }
-    }
     // ---- from_usize: boundaries for every type and wrapper ------------------------------------
     for ty in INT_TYS {
         let counts = with_int!(ty, T => boundary_counts::<T>(g), else vec![]);
@@ -762,6 +754,14 @@ pub fn gen(g: &mut Gen) {
             g.count_n(&format!("from_usize.type.{}", ty), counts.len() as u64);
             g.op(format!("@ zero_one {} {}", ty, wrap));
             g.count("zero_one");
+        }
+    }
+    // ---- from_usize: exhaustive for the 8/16-bit types (all wrappers) --------------------------
+    for ty in ["u8", "i8", "u16", "i16"] {
+        for wrap in wraps_of(ty) {
+            g.op(format!("@ from_usize_range {} {} 0 66000", ty, wrap));
+            g.count("from_usize.exhaustive-range-lines");
+            g.count_n("from_usize.counts-covered-by-ranges", 66001);
         }
     }
     // ---- operators: all operand forms ----------------------------------------------------------
